@@ -1,4 +1,4 @@
-(* Design probe: C18 - the logic of timer/timer.go over an abstract runtime (clock + runtime timers with
+(* C18 - the logic of timer/timer.go over an abstract runtime (clock + runtime timers with
    one-slot channels). Assumed runtime semantics (trusted base): time.NewTimer(x) delivers one value on its own
    channel once the clock reaches creation time + x (at once if x <= 0) unless stopped before; Stop never delivers
    afterwards; channels hold one value. *)
@@ -59,7 +59,9 @@ Definition step (t : timer) (o : op) : option (Z * Z) * timer :=
   | ORead => ReadC t
   end.
 
-Definition init : timer := {| now := 0; height := 0; view := 0; s := 0; d := 0; tt := None; ch := None; fresh := false |}.
+(* a fresh Timer has the zero time.Time as start instant: time.Since(zero) is (saturated) huge, so an Extend before the first
+   Reset never arms anything; modelled by a start instant far in the past *)
+Definition init : timer := {| now := 0; height := 0; view := 0; s := - 2 ^ 62; d := 0; tt := None; ch := None; fresh := false |}.
 
 (* invariant A (safety): whatever C() can deliver now is not early for the latest (s, d) *)
 Definition InvA (t : timer) : Prop :=
@@ -143,3 +145,12 @@ Proof.
 Qed.
 Print Assumptions never_early.
 Print Assumptions expiry_available.
+
+(* no stale expiry: right after Reset with a positive duration C() has nothing, whatever was pending before *)
+Lemma no_stale_after_reset ops h v dur : 0 < dur -> fst (ReadC (Reset (run init ops) h v dur)) = None.
+Proof.
+  intros Hd. unfold Reset. destruct (dur =? 0) eqn:E; [apply Z.eqb_eq in E; lia|].
+  unfold ReadC. cbn. destruct (now (run init ops) + dur <=? now (run init ops)) eqn:E2; [apply Z.leb_le in E2; lia|]. reflexivity.
+Qed.
+Lemma zero_fires ops h v : fst (ReadC (Reset (run init ops) h v 0)) = Some (h, v).
+Proof. unfold Reset. cbn. reflexivity. Qed.
